@@ -295,7 +295,7 @@ theorem or_group_event (fuel : Nat) (s : VM) (f : FUid) (i : Inst) (x : InstX) (
       hview i1 = (r, fp, HeadStatus.inactive) :: renderB (pe + 1) us (p1Brs e 0 brs).1 ∧
       slide (fuel + 4) f uj.1 s1 = .ok [(f, r)] s2 ∧ FlowAt s2 f i2 x2 cfg ∧ x2.ctxOwner = x.ctxOwner ∧
       hview i2 = [(r, pe + 1, HeadStatus.active)] := by
-  obtain ⟨s1, i1, hrun, F1, hr1, hv1⟩ := or_group_phase1 fuel s f i x cfg l mu pe e [(r, fp, HeadStatus.inactive)] us brs
+  obtain ⟨s1, i1, hrun, F1, hr1, hv1, _⟩ := or_group_phase1 fuel s f i x cfg l mu pe e [(r, fp, HeadStatus.inactive)] us brs
     F hown C S hlen hnm (by simpa using hndu) (by simpa using hv)
   obtain ⟨s2, i2, x2, hsl, F2, ho2, hv2, _⟩ := or_branch_completes fuel s1 f i1 x cfg l mu pe fp r us (p1Brs e 0 brs).1 j uj
     F1 C (by simpa using hv1) (by rw [hl1]; exact hlen) hndu hju hjm hone hfu (by rw [hr1]; exact hhx) (by rw [hr1]; exact hleaf) hmu hfp
